@@ -419,6 +419,9 @@ func buildSpec(c *config) *srv.Spec {
 			cs.UseOwnBlockedServices, cs.BlockedServices = true, []string{svcID}
 		case strings.HasSuffix(c.Services, "client-paused"):
 			cs.UseOwnBlockedServices, cs.BlockedServices, cs.ServicesPaused = true, []string{svcID}, true
+		case strings.HasSuffix(c.Services, "client-none"):
+			// opted out of the global list, own list empty
+			cs.UseOwnBlockedServices = true
 		}
 		sp.Clients = []srv.ClientSpec{cs}
 	}
@@ -609,7 +612,7 @@ func run(c *lib.Ctx) {
 				for _, prot := range []string{"on", "off", "paused", "pause-expired"} {
 					for _, flt := range []bool{true, false} {
 						for _, cl := range []string{"none", "global", "own-on", "own-off"} {
-							for _, sv := range []string{"none", "global", "global-paused", "client", "client-paused", "global+client-paused", "global-paused+client", "global+client"} {
+							for _, sv := range []string{"none", "global", "global-paused", "client", "client-paused", "global+client-paused", "global-paused+client", "global+client", "global+client-none"} {
 								if cl == "none" && strings.Contains(sv, "client") {
 									continue
 								}
